@@ -346,7 +346,7 @@ def main():
             rp = json.load(f)
         res = par.run_jobs(target, [{'seed': 0, 'replay': rp['replay']}], 1, timeout=120)
     else:
-        total = int((200000 if check.thorough else 6400) * check.scale)
+        total = int((200000 if check.thorough else 25600) * check.scale)
         nj = check.jobs * (4 if check.thorough else 1)
         jobs = [{'seed': check.seed * 1000003 + i, 'n': max(1, total // nj)} for i in range(nj)]
         res = par.run_jobs(target, jobs, check.jobs, timeout=7200 if check.thorough else 900)
